@@ -172,14 +172,21 @@ func c11Special() *core.Scenario {
 		Build: func(c *core.Chooser) *core.Case {
 			pi := c.Pick("pair", len(pairs))
 			org := c.Pick("org", 2)
+			relax := c.Bool("behind_grown_branch") // a JMP that does not reach with rel8 in front: pass 1 runs twice
 			hdr, o := "", "0"
 			if org == 1 {
 				hdr, o = "\tORG 0x7c00\n", "0x7c00"
 			}
+			if relax {
+				if strings.Contains(pairs[pi][1], "{O}") {
+					return nil // (the $-capturing pairs have their offsets written out; they are covered in C06 EQU_dollar_relaxed)
+				}
+				hdr += "\tJMP rlx_over\n\tRESB 200\nrlx_over:\n"
+			}
 			a := hdr + pairs[pi][0]
 			b := hdr + strings.ReplaceAll(pairs[pi][1], "{O}", o)
 			return &core.Case{
-				Key:       fmt.Sprintf("special %d org=%s", pi, o),
+				Key:       fmt.Sprintf("special %d org=%s", pi, o) + map[bool]string{true: " behind a grown branch", false: ""}[relax],
 				Feat:      feat("pair", fmt.Sprint(pi), "org", o),
 				FreshRefs: true, Srcs: []string{a, b},
 				Judge: func(rs []*core.Result) core.Verdict {
